@@ -83,6 +83,24 @@ theorem fanout_frame (b : B) (m : Msg) (subs : List (Nat × Nat)) :
       · simp only [List.mem_singleton] at h; subst h; rfl
       · exact o2 o h
 
+/-- the message object the live fan-out runs the loop over: RETAIN cleared, nothing else touched -/
+theorem loopMsg_content (m : Msg) :
+    (if m.p.retain then m.setRetain false else m).p.topic = m.p.topic ∧
+    (if m.p.retain then m.setRetain false else m).p.payload = m.p.payload ∧
+    (if m.p.retain then m.setRetain false else m).p.qos = m.p.qos := by
+  cases m.p.retain <;> exact ⟨rfl, rfl, rfl⟩
+
+theorem fanoutLive_fst (b : B) (m : Msg) (subs : List (Nat × Nat)) :
+    (fanoutLive b m subs).1 = (fanout b (if m.p.retain then m.setRetain false else m) subs).1 := rfl
+
+theorem fanoutLive_outs (b : B) (m : Msg) (subs : List (Nat × Nat)) :
+    (fanoutLive b m subs).2.2 = (fanout b (if m.p.retain then m.setRetain false else m) subs).2.2 := rfl
+
+theorem fanoutLive_frame (b : B) (m : Msg) (subs : List (Nat × Nat)) :
+    Frame b (fanoutLive b m subs).1 ∧ (fanoutLive b m subs).1.topics = b.topics ∧
+    ∀ o ∈ (fanoutLive b m subs).2.2, isHandOver o = true :=
+  fanout_frame b (if m.p.retain then m.setRetain false else m) subs
+
 theorem retain_sroot (t : Mqtt.Model.Topics.MemTopics) (r : Mqtt.Model.Topics.RMsg) :
     (t.retain r).1.sroot = t.sroot := by
   unfold Mqtt.Model.Topics.MemTopics.retain
@@ -109,7 +127,7 @@ theorem onPublish_frame (b : B) (m : Msg) :
   split
   · exact ⟨retainStep_frame b m, by simp⟩
   · rename_i subs _
-    obtain ⟨f2, _, o2⟩ := fanout_frame (retainStep b m).1 (retainStep b m).2 subs
+    obtain ⟨f2, _, o2⟩ := fanoutLive_frame (retainStep b m).1 (retainStep b m).2 subs
     exact ⟨(retainStep_frame b m).trans f2, o2⟩
 
 theorem releaseAll_frame (b : B) (l : List QEntry) :
